@@ -15,7 +15,7 @@ from sx import Str, Sym
 
 PROP = "C05"
 PROP_FILE = "C05_RoundTrip"
-THEOREMS = []
+THEOREMS = ['c05_escape', 'c05_escape_pattern', 'c05_escape_relex', 'c05_escape_pattern_relex']
 
 MANIFEST = {
     "text": "Round trip text -> AST -> text -> AST checked on the implementation for generated expressions, policies, templates and policy sets (ASTs rendered with minimal / full / redundant parentheses, random whitespace and comments; exhaustive constructor-pair nesting table; unary minus and i64 boundary texts; call styles of every extension function; reserved words; escape forms); escape/unescape and the expression printer are modelled in Gallina, proved (unescape . escape = id, pattern likewise) and compared with the implementation.",
@@ -195,6 +195,7 @@ def run(rep, tier, seed):
     model_stats = {}
     nx = 0
     if M is not None:
+        M.TAG = "C05_%s_%d" % ("r" if fw.REPO == "/repo" else "m", seed)
         model_stats, nx = M.correspondence(rep, rng, tier, harness, driver, accepted)
     for f in failures:
         rep.violation({"property": PROP, "kind": "proof obligation no longer checks", "detail": f}, no_failing_input=True)
